@@ -288,12 +288,18 @@ type handler struct {
 	idOf   map[string]int
 	recv   chan struct{}
 	timers *atomic.Bool // also register a timer for every key (second pass, see recordCluster)
+	// fan-out: a source record keyed into TWO events with different keys (possibly owned by different operators):
+	// record -> the partner key emitted in addition to the record's own key
+	partner map[string][]byte
 }
 
 func (h *handler) KeyEventBatch(_ context.Context, events [][]byte) ([][]*handlerpb.KeyedEvent, error) {
 	out := make([][]*handlerpb.KeyedEvent, len(events))
 	for i, raw := range events {
 		out[i] = []*handlerpb.KeyedEvent{{Key: append([]byte{}, raw...), Timestamp: timestamppb.New(time.Unix(1, 0))}}
+		if p, ok := h.partner[string(raw)]; ok {
+			out[i] = append(out[i], &handlerpb.KeyedEvent{Key: append([]byte{}, p...), Timestamp: timestamppb.New(time.Unix(1, 0))})
+		}
 	}
 	return out, nil
 }
@@ -420,8 +426,22 @@ func (s *siteRun) recordCluster(c, n, n2 int, ids []int) ([]event, error) {
 	for _, id := range ids {
 		sample = append(sample, s.keys[id-1])
 	}
+	// every second configuration: records fan out into two keyed events (own key + the next sampled key), so that
+	// routing is exercised per keyed event, not per source record
+	records := sample
+	partner := map[string][]byte{}
+	if (c+n)%2 == 1 && len(sample) >= 2 {
+		records = nil
+		for i := 0; i+1 < len(sample); i += 2 {
+			records = append(records, sample[i])
+			partner[string(sample[i])] = sample[i+1]
+		}
+		if len(sample)%2 == 1 {
+			records = append(records, sample[len(sample)-1])
+		}
+	}
 	sr := sourcerunner.New(sourcerunner.NewParams{Host: "sr", Job: job,
-		UserHandler: &handler{idx: -1, mu: &mu, got: &got, idOf: s.idOf, recv: recv, timers: timers},
+		UserHandler: &handler{idx: -1, mu: &mu, got: &got, idOf: s.idOf, recv: recv, timers: timers, partner: partner},
 		OperatorFactory: func(senderID string, node *jobpb.NodeIdentity) proto.Operator {
 			return &opClient{op: byID[node.Id], senderID: senderID, id: node.Id}
 		},
@@ -444,7 +464,7 @@ func (s *siteRun) recordCluster(c, n, n2 int, ids []int) ([]event, error) {
 	}
 	var ranges []event
 	pass := func(ckpt uint64) ([]stored, error) {
-		rd.push(sample)
+		rd.push(records)
 		if err := waitN(recv, len(ids), "keyed events to reach an operator's handler"); err != nil {
 			return nil, err
 		}
